@@ -398,7 +398,7 @@ VOP(mz_zoneless)
 }
 
 // mz_msg t=<tree> recv=<zone> snd=<zone><a|b> auth=0|1 ident=ep|unk claim=-|<zone>|x m=<method> obj=<zone>|nz|k<zone>
-//        ts=none|old|new ac=0|1 ak=0|1 [xz=<zone>] [var=...] [rep=a|b  receiver endpoint]
+//        ts=none|old|new|eq ac=0|1 ak=0|1 [xz=<zone>] [var=...] [rep=a|b  receiver endpoint]
 //        event::ExecuteCommand forwarding family: xt=-|unk|<zone><a|b> (params.endpoint) xcap=0|1 xh=0|1 (params.host exists)
 VOP(mz_msg)
 {
@@ -626,6 +626,12 @@ VOP(mz_msg)
 	double pos = sndEp ? sndEp->GetRemoteLogPosition() : 0;
 	if (ts == "old") msg->Set("ts", pos - 5);
 	else if (ts == "new") msg->Set("ts", std::max(pos, now) + 1);
+	else if (ts == "eq") {
+		// a second, DISTINCT event relayed by the sender within the same clock tick as the last message it got through:
+		// ts equals the sender's remote log position (primed here, before the "before" snapshot, so the position does not change)
+		if (sndEp) sndEp->SetRemoteLogPosition(now);
+		msg->Set("ts", now);
+	}
 
 	auto T0 = std::chrono::steady_clock::now();
 	DrainAll();
